@@ -18,7 +18,7 @@ LEVEL_TEXT = ('All ordered pairs (thorough: triples) over a variant alphabet tha
               'so the pair/triple product is the right bound.')
 LEVEL_NOTE = ('sections are well-formed by the layout the decoders document; sequences longer than 3 distinct variants '
               'are covered only by the repeat and 253-section cases; pel_values name tables trusted')
-RULE = ('enumerate PELs = PH UH + sequence of section variants: all ordered pairs (quick) / triples over one variant per '
+RULE = ('thorough also: every one of the 65 527 two-byte section ids without a type-specific decoder, followed by a sentinel. ' 'enumerate PELs = PH UH + sequence of section variants: all ordered pairs (quick) / triples over one variant per '
         'type (thorough) x creator ids, each type repeated 1..4 times, 253 optional sections of one type, payload '
         'lengths 0..64,255,256,4096,65527 for length-driven types. Non-trivial: >= 2 optional sections or a payload '
         'sweep case; distinct by encoded bytes.')
@@ -97,6 +97,8 @@ def plan(tier, seed):
     else:
         for i in range(len(ONE_PER_TYPE)):
             chunks.append({'k': 'triples', 'first': i})
+        for hi in range(0, 256, 16):
+            chunks.append({'k': 'ids', 'lo': hi, 'hi': hi + 16})
     return chunks
 
 
@@ -202,6 +204,17 @@ def run_chunk(chunk):
             b = byname['UDhex'] if name != 'UDhex' else byname['MT']
             _do(res, {'creator': 'O', 'sections': [a, b, a, b]})
             _do(res, {'creator': 'O', 'sections': [a, a, b, a]})
+    elif k == 'ids':
+        # every two-byte section id (named types get their own decoder only if the payload suits them, so the
+        # sweep uses the ids that are NOT decoded by a type-specific class; those are covered by the variants)
+        special = {b'PS', b'SS', b'EH', b'MT', b'LP', b'UD', b'ED', b'PH', b'UH'}
+        follow = byname['MT']
+        for hi in range(chunk['lo'], chunk['hi']):
+            for lo in range(256):
+                if bytes([hi, lo]) in special:
+                    continue
+                s = {'id': (hi << 8) | lo, 't': '??', 'comp': 0x1200 | lo, 'sub': hi, 'payload': bytes([hi, lo, 0x5a] * 3).hex()}
+                _do(res, {'creator': 'O', 'sections': [s, follow]}, sample_every=4099)
     elif k == 'cli':
         _cli(res, byname)
     elif k == 'limit':
